@@ -80,10 +80,16 @@ def main():
             sampling_time=data.sampling_time.total_seconds(), training_time=data.training_time.total_seconds(),
             likelihood_evaluation_time=data.model.likelihood_evaluation_time.total_seconds())
 
+    write_wall = [0.0]   # wall time spent writing checkpoints (and digesting them): nessai stops its sampling clock while a checkpoint is written
+
     def dump(data, filename, module, save_existing=False):
-        seq = before_write(data)
-        r = orig_dump(data, filename, module, save_existing=save_existing)
-        after_write(data, seq)
+        t_w = time.monotonic()
+        try:
+            seq = before_write(data)
+            r = orig_dump(data, filename, module, save_existing=save_existing)
+            after_write(data, seq)
+        finally:
+            write_wall[0] += time.monotonic() - t_w
         return r
 
     # ---- the documented alternative to the resume file: a user checkpoint_callback that stores the pickled sampler itself, handed back through resume_data
@@ -92,6 +98,13 @@ def main():
     def checkpoint_callback(state):
         import pickle
 
+        t_w = time.monotonic()
+        try:
+            _checkpoint_callback(state, pickle)
+        finally:
+            write_wall[0] += time.monotonic() - t_w
+
+    def _checkpoint_callback(state, pickle):
         seq = before_write(state)
         blob = pickle.dumps(state)
         with open(cb_file + ".tmp", "wb") as f:
@@ -176,7 +189,24 @@ def main():
             likelihood_evaluation_time=model.likelihood_evaluation_time.total_seconds(), n_nested=len(ns.nested_samples) if not ins else None)
         if stop_after and not ns.resumed:
             ns.max_iteration = ns.iteration + stop_after
-        fs.run(plot=False, save=False)
+        # wall time of the sampling loop itself (class attribute wrapped for this call only: nothing is pickled with the sampler)
+        cls = type(fs.ns)
+        loop = cls.nested_sampling_loop
+        loop_wall = [0.0]
+
+        def timed_loop(self, *a, **k):
+            t_loop = time.monotonic()
+            try:
+                return loop(self, *a, **k)
+            finally:
+                loop_wall[0] += time.monotonic() - t_loop
+
+        cls.nested_sampling_loop = timed_loop
+        try:
+            fs.run(plot=False, save=False)
+        finally:
+            cls.nested_sampling_loop = loop
+        run_wall = loop_wall[0] - write_wall[0]
         if ins:
             check_ins_result(fs, model, mon)
         else:
@@ -188,7 +218,8 @@ def main():
         uniq = len(np.unique(pts.view([("", pts.dtype)] * pts.shape[1])))
         log(ev="done", it=int(ns.iteration), counter=int(model.likelihood_evaluations), reported_total=int(ns.total_likelihood_evaluations), pts=int(model.b_points),
             n=len(a), unique_points=uniq, sorted=bool(np.all(np.diff(a["logL"]) >= 0)), logZ=float(fs.logZ), finalised=bool(ns.finalised),
-            sampling_time=ns.sampling_time.total_seconds(), problems=mon.problems, counts=mon.counts, oob=int(model.b_oob))
+            sampling_time=ns.sampling_time.total_seconds(), training_time=ns.training_time.total_seconds(),
+            likelihood_evaluation_time=model.likelihood_evaluation_time.total_seconds(), run_wall=run_wall, problems=mon.problems, counts=mon.counts, oob=int(model.b_oob))
     except BaseException as e:
         log(ev="error", error=f"{type(e).__name__}: {e}", traceback=traceback.format_exc()[-1500:], problems=mon.problems)
         logf.close()
